@@ -13,9 +13,11 @@ NS = "Qmc.LawThm."
 GROUPS = {
     # refinement: model function = run of its tree twin on every script
     "refine": ["metropolisSlot_run", "metropolisSweep_run", "heatBathSlot_run", "heatBathSweep_run",
-               "freeRefresh_run", "flip_run", "pick_run"],
-    # idealisation step: weight of a flip node vs. the count of accepted 64-bit words
-    "ideal": ["flip_law", "flip_weight_counting", "flip_weight_frequency", "fair_coin_exact", "law_of_bind"],
+               "freeRefresh_run", "clusterUpdate_run", "isingTimestep_run", "isingTimestep_cfg",
+               "flip_run", "pick_run"],
+    # idealisation step: weight of a flip / pick node vs. the count of accepted 64-bit words
+    "ideal": ["flip_law", "flip_weight_counting", "flip_weight_frequency", "fair_coin_exact",
+              "pick_weight_counting", "law_of_bind"],
     # law = kernel, Metropolis slot and sweep, invariance of the law of the executable sweep
     "sweep": ["metropolisSlot_law_eq_kernel", "metropolisSweep_law_eq_kernel",
               "metropolisSweep_law_eq_kernel_legalSpace", "metropolisSweep_law_invariant",
@@ -29,8 +31,13 @@ GROUPS = {
              "heatBathSweep_law_invariant_cut"],
     # free-spin refresh
     "refresh": ["freeRefresh_law_eq_kernel"],
+    # cluster update and the whole step; PARTIAL in the named hypothesis TravOK on the traversal `traverse`
+    "step": ["cluster_coins_law", "clusterUpdate_law_eq_kernel_partial", "clusterKernel_eq_components_partial",
+             "step_law_eq_kernels_partial",
+             "isingStep_law_invariant_partial", "isingStep_law_invariant_partial_hb", "htrav_of_enum"],
     # non-vacuity facts used by the examples
-    "example": ["Example.exB_legal", "Example.exB_mem_legal", "Example.H_wf"],
+    "example": ["Example.exB_legal", "Example.exB_mem_legal", "Example.H_wf", "Example.exB_travOK",
+                "Example.spec3_trav2"],
 }
 
 THEOREMS = [NS + t for g in GROUPS.values() for t in g]
